@@ -67,6 +67,8 @@ void plan_ready() {
     ssize_t w = write(g_child_pipe, m.data(), m.size()); (void) w;
 }
 static volatile sig_atomic_t g_in_run = 0;
+extern "C" void __gcov_dump(void) __attribute__((weak));   // present only in the coverage build (bin/coverage)
+static inline void cov_flush() { if (__gcov_dump) __gcov_dump(); }
 static void on_alarm(int) { static const char m[] = "cifsim: run exceeded its wall-clock backstop\n"; ssize_t r = write(2, m, sizeof m - 1); (void) r; _exit(79); }
 static double now_s() { struct timespec ts; clock_gettime(CLOCK_MONOTONIC, &ts); return ts.tv_sec + ts.tv_nsec * 1e-9; }
 
@@ -206,7 +208,7 @@ static ChildOutcome run_in_child(const RunSpec &spec, int alarm_s, bool want_tra
         msg += "\n";
         size_t off = 0; while (off < msg.size()) { ssize_t w = write(pfd[1], msg.data() + off, msg.size() - off); if (w <= 0) break; off += (size_t) w; }
         close(pfd[1]);
-        _exit(0);
+        cov_flush(); _exit(0);
     }
     close(pfd[1]);
     std::string buf; char tmp[65536]; ssize_t n;
@@ -342,7 +344,7 @@ static void worker_main(int wfd, int id, int nworkers, const RunSpec &base, long
         if (r.violated) {
             flush_stats();
             fprintf(out, "V\t%ld\t%s\t%s\t%s\n", i, enc(r.clause).c_str(), enc(r.sig).c_str(), enc(r.detail).c_str()); fflush(out);
-            _exit(3);     // state after a violation is not trusted: the parent starts a fresh worker
+            cov_flush(); _exit(3);     // state after a violation is not trusted: the parent starts a fresh worker
         }
         if (s.verbose) { std::string t; size_t k = 0; for (auto &l : g_log.text) { if (k++ > 40) { t += "..."; break; } t += l; t += "\n"; } fprintf(out, "P\t%ld\t%s\n", i, enc(t).c_str()); }
         fprintf(out, "D\t%ld\t%016llx\n", i, (unsigned long long) r.fingerprint);
@@ -350,7 +352,7 @@ static void worker_main(int wfd, int id, int nworkers, const RunSpec &base, long
     }
     flush_stats();
     fprintf(out, "E\n"); fflush(out);
-    _exit(0);
+    cov_flush(); _exit(0);
 }
 
 static int cmd_run(int argc, char **argv) {
@@ -393,7 +395,7 @@ static int cmd_run(int argc, char **argv) {
             for (auto &o : ws) if (o.fd >= 0) close(o.fd);
             int efd = open(w.errpath.c_str(), O_WRONLY | O_CREAT | O_TRUNC, 0644); if (efd >= 0) { dup2(efd, 2); close(efd); }
             worker_main(pfd[1], w.id, workers, base, runs, run_alarm, deadline, start, nsamples);
-            _exit(0);
+            cov_flush(); _exit(0);
         }
         close(pfd[1]); w.pid = pid; w.fd = pfd[0]; w.buf.clear(); w.current = -1; w.finished = false; w.counters.clear(); w.events = 0;
     };
